@@ -15,7 +15,7 @@ var decMu sync.RWMutex
 func CompileToGetDecoder(typ *runtime.Type) (Decoder, error) {
 	initDecoder()
 	typeptr := uintptr(unsafe.Pointer(typ))
-	if typeptr > typeAddr.MaxTypeAddr {
+	if typeptr > typeAddr.MaxTypeAddr || typeptr < typeAddr.BaseTypeAddr {
 		verifSlot(false, 0, typeptr)
 		return compileToGetDecoderSlowPath(typeptr, typ)
 	}
